@@ -654,6 +654,14 @@ def dict_builders_pass_everything(ctx: Ctx, rep: Report, rid: str = "R16.14", fa
                 if isinstance(v.func, ast.Name):
                     c = ctx.prog.resolve_name(f.module, v.func.id)
                     target_ok = isinstance(c, Class) and c.is_subclass_of(base)
+                    if not target_ok:
+                        # class_ = Remark if action == "remark" else Ace; return class_(**kwargs)
+                        from .common import single_env
+
+                        d = single_env(f.node).get(v.func.id)
+                        alts = [d.body, d.orelse] if isinstance(d, ast.IfExp) else [d] if isinstance(d, ast.Name) else []
+                        cs = [ctx.prog.resolve_name(f.module, a.id) for a in alts if isinstance(a, ast.Name)]
+                        target_ok = bool(cs) and len(cs) == len(alts) and all(isinstance(c_, Class) and c_.is_subclass_of(base) for c_ in cs)
                 elif isinstance(v.func, ast.Attribute) and src(v.func.value) == "self" and v.func.attr.startswith("_dict_to"):
                     target_ok = True
                 elif factories and (src(v.func) == "cls" or (isinstance(v.func, ast.Attribute) and src(v.func.value) in ("cls", f.cls.name))):
@@ -773,6 +781,14 @@ def run(ctx: Ctx, rep: Report, tier: str) -> None:
     objects_adopted_once(ctx, rep)
     dicts_rebuilt_whole(ctx, rep)
     blocks_keep_identity(ctx, rep)
+    # R16.17 the list operations of a container work on the list in place (C15 R15.10): an operation that goes through the
+    # items setter re-groups a grouped ACL and so replaces its blocks
+    from .c15 import list_api_forwarding, r15_4
+
+    sub1510 = Report("C16")
+    list_api_forwarding(ctx, sub1510)
+    r15_4(ctx, sub1510)
+    rep.absorb(sub1510, "R16.17")
     # R16.15 premise: the exported line is read back to the same data: every selectable port name is in the splitter's
     # vocabulary (C09 R09.5)
     from .c09 import splitter_vocabulary
